@@ -165,6 +165,8 @@ pub struct Connection {
     key_phase: bool,
     /// How many packets are in the current key phase. Used only for `Data` space.
     key_phase_size: u64,
+    /// Number of the first packet sent, or to be sent, in the current key phase
+    key_phase_first_packet: u64,
     /// Transport parameters set by the peer
     peer_params: TransportParameters,
     /// Source ConnectionId of the first packet received from the peer
@@ -308,6 +310,7 @@ impl Connection {
             // response. Inspired by quic-go's similar behavior of performing the first key update
             // at the 100th short-header packet.
             key_phase_size: rng.random_range(10..1000),
+            key_phase_first_packet: 0,
             peer_params: TransportParameters::default(),
             orig_rem_cid: rem_cid,
             initial_dst_cid: init_cid,
@@ -1342,6 +1345,17 @@ impl Connection {
             // We already just updated, or are currently updating, the keys. Concurrent key updates
             // are illegal.
             debug!("ignoring redundant forced key update");
+            return;
+        }
+        if !self.spaces[SpaceId::Data]
+            .largest_acked_packet
+            .is_some_and(|pn| pn >= self.key_phase_first_packet)
+        {
+            // The peer has not acknowledged anything we sent in the current key phase, so it may
+            // not have noticed that phase yet (we might not even have sent anything in it, if we
+            // entered it following the peer). Updating again now would leave the peer unable to
+            // tell our new packets from ones of the phase before.
+            debug!("ignoring forced key update before the current key phase is acknowledged");
             return;
         }
         self.update_keys(None, false);
@@ -3733,6 +3747,7 @@ impl Connection {
             mem::replace(self.next_crypto.as_mut().unwrap(), new),
         );
         self.spaces[SpaceId::Data].sent_with_keys = 0;
+        self.key_phase_first_packet = self.spaces[SpaceId::Data].next_packet_number;
         self.prev_crypto = Some(PrevCrypto {
             crypto: old,
             end_packet,
